@@ -83,6 +83,8 @@ def r_limit(prog, R, rid):
                     rs = strip(rr)
                     if rs.get("k") == "sizeof":
                         continue
+                    if (const_val(rr) == 0 and op in (">", "<=")) or (const_val(rr) == 1 and op in (">=", "<")):
+                        continue      # an emptiness test written as a magnitude comparison, not a limit
                     nb += 1
                     ct = _cmp_text(c) if p else "!(%s)" % _cmp_text(c)
                     if (f.name, ct) in LIMIT_OK:
@@ -500,3 +502,64 @@ def r_qdcount(prog, R, rid):
         hf = prog.func("ares_dns_write_header")
         r.viol(k, hf.name, hf.loc(hf.ln), "the parser rejects QDCOUNT %s, the write path (%d functions from %s) never tests ares_dns_record_query_cnt: a record with no question, or with two, is written "
                "successfully and the result fails to parse (ARES_EBADRESP)" % (" and ".join(sorted(set(pguards))), len(reach), root.name))
+
+
+def r_optlen(prog, R, rid):
+    r = R.rule(rid, "an option is stored with a length only if its value bytes are there: the writers announce the stored length and append the value only when it is non-NULL, so "
+               "(value NULL, length > 0) must not be storable -- the message would announce bytes it does not carry and fail to parse", floor=1,
+               analysis="disjunctive forward analysis over (value NULL?, length 0?) at the stores of ares_dns_rr_set_opt_own, refined at branches")
+    f = prog.func("ares_dns_rr_set_opt_own")
+    vp = [p_["n"] for p_ in f.params if (p_.get("ty") or "").replace(" ", "") == "unsignedchar*"]
+    lp = [p_["n"] for p_ in f.params if p_["n"].endswith("len")]
+    if not r.require(len(vp) == 1 and len(lp) == 1, "ares_dns_rr_set_opt_own: value/length parameters not recognised"):
+        return
+    vn, ln_ = vp[0], lp[0]
+
+    def transfer(st, blk, i, el):
+        return [st]
+
+    def refine(st, cond, pol, blk):
+        v0, l0 = st
+        for c, p_ in atoms(cond, pol):
+            op, l, rr = norm_cmp(c, p_)
+            ls = strip(l)
+            if is_var(ls, vn):
+                isnull = True if op == "false" else False if op == "truth" else ((op == "==") if (op in ("==", "!=") and rr is not None and is_null(rr)) else None)
+                if isnull is True:
+                    if v0 == "Y":
+                        return None
+                    v0 = "N"
+                elif isnull is False:
+                    if v0 == "N":
+                        return None
+                    v0 = "Y"
+            if is_var(ls, ln_):
+                zero = True if op == "false" else False if op == "truth" else None
+                if op in ("==", "!=") and rr is not None and const_val(rr) == 0:
+                    zero = (op == "==")
+                if op == ">" and rr is not None and const_val(rr) == 0:
+                    zero = False
+                if op == "<=" and rr is not None and const_val(rr) == 0:
+                    zero = True
+                if zero is True:
+                    if l0 == "NZ":
+                        return None
+                    l0 = "Z"
+                elif zero is False:
+                    if l0 == "Z":
+                        return None
+                    l0 = "NZ"
+        return (v0, l0)
+    at = forward_states(f, ("?", "?"), transfer, refine)
+    stores = [(b, i, el) for b, i, el in f.elements() if el["k"] == "asg" and is_field(el["e"]["l"], "val_len") and is_var(strip(el["e"].get("r")), ln_)]
+    if not r.require(bool(stores), "ares_dns_rr_set_opt_own: store of the option length not found"):
+        return
+    for b, i, el in stores:
+        sts = at.get((b.id, i), set())
+        bad = [st for st in sts if st[0] in ("N", "?") and st[1] in ("NZ", "?")]
+        k = "fn=%s length stored only with its value" % f.name
+        if bad or not sts:
+            r.viol(k, f.name, f.loc(el), "'%s' can be reached with %s == NULL and %s != 0: ares_dns_rr_set_opt(rr, key, opt, NULL, n) stores an option of length n without bytes; the writers emit the length and "
+                   "skip the value ('if (val && val_len)'), so the serialised message announces n bytes it does not contain and does not parse back" % (el.get("t", ""), vn, ln_))
+        else:
+            r.ok(k, f.loc(el))
